@@ -163,16 +163,18 @@ Definition mat2SE3 (check : bool) (T : mat3 * vec3) : option se3elt :=
 (* torch.pow(x, 1/3): nan for x < 0 *)
 Definition cbrt_pow (x : F) : option F :=
   if x <? zero then None else if x =? zero then Some zero else Some (texp (tln x / ofZ 3)).
-(* mat2Sim3(cat(sR, t), check): s = det(sR)^(1/3); "not full rank" when allclose(s, 0) *)
+(* mat2Sim3(cat(sR, t), check): s = det(sR)^(1/3); "not full rank" when allclose(s, 0);
+   [mat2Sim3_k] is the rest of the function once the cube root is known *)
+Definition mat2Sim3_k (check : bool) (T : mat3 * vec3) (s : F) : option sim3elt :=
+  if absF s <=? conv_tol then None
+  else match mat2SO3 check (mdivs3 (fst T) s) with
+       | Some q => Some (snd T, (q, s))
+       | None => None
+       end.
 Definition mat2Sim3 (check : bool) (T : mat3 * vec3) : option sim3elt :=
   match cbrt_pow (mdet3 (fst T)) with
   | None => None
-  | Some s =>
-      if absF s <=? conv_tol then None
-      else match mat2SO3 check (mdivs3 (fst T) s) with
-           | Some q => Some (snd T, (q, s))
-           | None => None
-           end
+  | Some s => mat2Sim3_k check T s
   end.
 
 Section Oracles.
@@ -234,12 +236,11 @@ End Oracles.
 (* flat-list interfaces for the enclosure route *)
 Definition se3_out (o : option se3elt) : list F := match o with Some X => SE3_l X | None => [] end.
 Definition sim3_out (o : option sim3elt) : list F := match o with Some X => Sim3_l X | None => [] end.
-Definition svdtf_enc (src tgt : cloud) (U Vh : mat3) : list F :=
-  se3_out (if sizes_ok src tgt then mat2SE3 false (svdtf_mat src tgt U Vh) else None).
-Definition svdstf_enc (ws : bool) (src tgt : cloud) (U : mat3) (D : vec3) (V : mat3) : list F :=
-  sim3_out (if sizes_ok src tgt then
-              let '(s, R, t) := svdstf_mat ws src tgt U D V in mat2Sim3 true (mscale3 s R, t)
-            else None).
+(* the conversions alone, on a matrix given entry by entry (stage 2 of the conversion tie: stage 1
+   evaluates svdtf_mat / svdstf_mat over Q and hands the exact (R, t) / (s R, t) over) *)
+Definition mat2SE3_enc (R : mat3) (t : vec3) : list F := se3_out (mat2SE3 false (R, t)).
+Definition cbrt_enc (sR : mat3) : list F := match cbrt_pow (mdet3 sR) with Some s => [s] | None => [] end.
+Definition mat2Sim3_k_enc (sR : mat3) (t : vec3) (s : F) : list F := sim3_out (mat2Sim3_k true (sR, t) s).
 End AlignT.
 
 (* ======================================================================================== *)
@@ -318,3 +319,13 @@ Definition icp_code (c : icp_case) : nat :=
 Definition icp_bad (cs : list icp_case) : list nat :=
   flat_map (fun c => let k := icp_code c in
                      if Nat.eqb k 0 then [] else [(let '(i, _, _, _, _, _, _) := c in i) * 16 + k]) cs.
+
+(* stage 1 of the conversion tie: the exact matrix and translation the code hands to mat2SE3 /
+   mat2Sim3, as (numerator, denominator) pairs, row-major R (or s R) then t *)
+Definition qz (q : Q) : Z * Z := (Qnum q, Zpos (Qden q)).
+Definition m3t_qz (m : @mat3 Q) (t : @vec3 Q) : list (Z * Z) := map qz (m3_l m ++ v3_l t).
+Definition tf_stage1 (c : pts * pts * (@mat3 Q * @mat3 Q)) : list (Z * Z) :=
+  let '(src, tgt, (U, Vh)) := c in let '(R, t) := svdtf_mat src tgt U Vh in m3t_qz R t.
+Definition stf_stage1 (c : bool * pts * pts * (@mat3 Q * @vec3 Q * @mat3 Q)) : list (Z * Z) :=
+  let '(ws, src, tgt, (U, D, V)) := c in
+  let '(s, R, t) := svdstf_mat ws src tgt U D V in m3t_qz (mscale3 s R) t.
